@@ -7,4 +7,5 @@ C2 == <<255, 255, 255, 255>>
 C3 == <<1, 66, 0, 128>>
 C4 == <<>>
 C5 == <<3, 0, 0, 0, 7, 8, 9>>
+C6 == <<9, 8, 7, 6, 5, 4, 3, 2, 1>>        \* long enough for an 8-byte value and for containers of wide elements
 ====
